@@ -222,4 +222,718 @@ Proof.
   unfold rs_ctor. destruct dl as [b| |]; intro H; try discriminate; injection H as <-; simpl; auto 10.
 Qed.
 
+
+(* ---------------- C06: no repeats (RandomSearcher) --------------------- *)
+Lemma suggested_app o1 o2 : suggested (o1 ++ o2) = suggested o1 ++ suggested o2.
+Proof.
+  induction o1 as [|a r IH]; simpl; auto.
+  destruct a as [[c | ] | x]; simpl; rewrite ?IH; auto.
+Qed.
+
+(* every suggestion is an initial point or has a match string different from
+   the match strings of all earlier suggestions *)
+Definition ms_fresh (init outs : list C) : Prop :=
+  forall pre c post, outs = pre ++ c :: post -> In c init \/ ~ In (ms c) (map ms pre).
+
+Lemma ms_fresh_nil init : ms_fresh init [].
+Proof. intros [|x0 pre0] c0 post0 H; discriminate. Qed.
+
+Lemma ms_fresh_snoc init outs c :
+  ms_fresh init outs -> (In c init \/ ~ In (ms c) (map ms outs)) -> ms_fresh init (outs ++ [c]).
+Proof.
+  intros H Hc pre c' post. induction post as [|x post' _] using rev_ind; intro E.
+  - apply app_inj_tail in E as [-> ->]. assumption.
+  - rewrite app_comm_cons, app_assoc in E. apply app_inj_tail in E as [E _].
+    eapply H; eauto.
+Qed.
+
+Record rs_inv (init : list C) (s : rs_state) (outs : list C) : Prop := {
+  iv_ad : rs_allow_dup _ _ s = false;
+  iv_rc : rs_restrict _ _ s = None;
+  iv_ex : forall c, In c outs -> In (ms c) (rs_excl _ _ s);
+  iv_ex2 : forall m, In m (rs_excl _ _ s) -> In m (map ms outs);
+  iv_exnd : NoDup (rs_excl _ _ s);
+  iv_nd : NoDup outs;
+  iv_p2e_nd : NoDup (rs_p2e _ _ s);
+  iv_p2e_out : forall c, In c (rs_p2e _ _ s) -> ~ In c outs;
+  iv_p2e_init : incl (rs_p2e _ _ s) init;
+  iv_fresh : ms_fresh init outs }.
+
+Lemma NoDup_snoc {A} (l : list A) x : NoDup l -> ~ In x l -> NoDup (l ++ [x]).
+Proof.
+  intros H Hx. induction l as [|y l IH]; simpl.
+  - constructor; [intros []|constructor].
+  - inversion H as [|? ? Hy Hl]; subst. constructor.
+    + intro Hin. apply in_app_or in Hin as [Hin|[->|[]]]; [contradiction|]. apply Hx. left; reflexivity.
+    + apply IH; [assumption|]. intro Hin. apply Hx. right; assumption.
+Qed.
+
+Lemma rs_inv_step init s outs e :
+  rs_inv init s outs -> rs_inv init (fst (rs_step s e)) (outs ++ suggested (snd (rs_step s e))).
+Proof.
+  intros I. destruct I as [Had Hrc Hex Hex2 Hexnd Hnd Hpnd Hpout Hpinit Hfr].
+  assert (Same : rs_inv init s (outs ++ [])) by (rewrite app_nil_r; constructor; assumption).
+  destruct e as [ds|t c|t|t]; simpl.
+  - destruct (rs_p2e _ _ s) as [|c r] eqn:Ep.
+    + pose proof (rs_get_random s ds Ep Hrc) as G.
+      destruct (sample_random C M meqb ms (rs_retries C M s) (rs_size C M s) (rs_excl C M s) ds)
+        as [[[c | ] ds'] | x] eqn:Es; rewrite G; simpl; try exact Same.
+      * rewrite Had. apply sample_random_some in Es.
+        assert (Hc : ~ In c outs) by (intro Hc; apply Es, Hex, Hc).
+        assert (Hm : ~ In (ms c) (map ms outs)).
+        { intro Hm. apply in_map_iff in Hm as (c' & E' & Hc'). apply Es. rewrite <- E'. apply Hex, Hc'. }
+        constructor; simpl.
+        -- assumption.
+        -- reflexivity.
+        -- intros c' Hc'. apply excl_add_In. apply in_app_or in Hc' as [Hc'|[<-|[]]]; auto.
+        -- intros m Hm'. apply excl_add_In in Hm' as [->|Hm']; rewrite map_app; apply in_or_app; simpl; auto.
+        -- apply excl_add_NoDup; assumption.
+        -- apply NoDup_snoc; assumption.
+        -- constructor.
+        -- intros x Hx; destruct Hx.
+        -- intros x Hx; destruct Hx.
+        -- apply ms_fresh_snoc; auto.
+      * rewrite app_nil_r. constructor; simpl; try assumption; try reflexivity.
+    + destruct (rs_get_initial s c r ds Ep) as (s' & Hg & Hp' & Had' & _ & _ & _ & _ & Hrc' & Hex' & _).
+      rewrite Hg. simpl. specialize (Hrc' Hrc) as [Hrc' _]. specialize (Hex' Had).
+      assert (Hcr : ~ In c r) by (inversion Hpnd; assumption).
+      assert (Hr' : NoDup r) by (inversion Hpnd; assumption).
+      constructor; simpl; try congruence.
+      * intros c' Hc'. rewrite Hex'. apply excl_add_In. apply in_app_or in Hc' as [Hc'|[<-|[]]]; auto.
+      * intros m Hm'. rewrite Hex' in Hm'. apply excl_add_In in Hm' as [->|Hm'];
+          rewrite map_app; apply in_or_app; simpl; auto.
+      * rewrite Hex'. apply excl_add_NoDup; assumption.
+      * apply NoDup_snoc; [assumption|]. apply Hpout. left; reflexivity.
+      * rewrite Hp'. intros c' Hc' Hin. apply in_app_or in Hin as [Hin|[<-|[]]].
+        -- eapply Hpout; [right; exact Hc' | exact Hin].
+        -- contradiction.
+      * rewrite Hp'. intros x Hx. apply Hpinit. right; assumption.
+      * apply ms_fresh_snoc; [assumption|]. left. apply Hpinit. left; reflexivity.
+  - unfold rs_register_pending. destruct (rs_cft _ _ s); rewrite ?Had; exact Same.
+  - unfold rs_evaluation_failed. destruct (rs_cft _ _ s); rewrite ?Had; exact Same.
+  - exact Same.
+Qed.
+
+Lemma rs_inv_run init es : forall s outs,
+  rs_inv init s outs -> rs_inv init (fst (rs_run s es)) (outs ++ suggested (snd (rs_run s es))).
+Proof.
+  induction es as [|e r IH]; intros s outs I; simpl.
+  - rewrite app_nil_r. assumption.
+  - pose proof (rs_inv_step init s outs e I) as I1.
+    destruct (rs_step s e) as [s1 o1]. simpl in I1.
+    pose proof (IH s1 _ I1) as I2. destruct (rs_run s1 r) as [s2 o2]. simpl in *.
+    rewrite suggested_app, app_assoc. assumption.
+Qed.
+
+Lemma rs_inv_ctor pts dl sz rt s :
+  NoDup pts -> rs_ctor C M meqb ms pts dl false None sz rt = Ok s -> rs_inv pts s [].
+Proof.
+  intros Hnd Hc. apply rs_ctor_p2e in Hc as (Hp & He & Hr & _ & Ha & _).
+  constructor; simpl; try assumption.
+  - intros c Hc; destruct Hc.
+  - rewrite He. intros m Hm; destruct Hm.
+  - rewrite He. constructor.
+  - constructor.
+  - rewrite Hp. assumption.
+  - intros c _ Hc; destruct Hc.
+  - rewrite Hp. apply incl_refl.
+  - apply ms_fresh_nil.
+Qed.
+
+(* ---------------- C06: 'nothing left' from the random searcher ---------- *)
+Lemma rs_none_reason (s s' : rs_state) ds ds' :
+  rs_restrict _ _ s = None -> rs_get_config s ds = Ok (s', None, ds') ->
+  rs_p2e _ _ s = [] /\
+  (excl_exhausted M (rs_size _ _ s) (rs_excl _ _ s) = true \/
+   exists pre, ds = map DCfg pre ++ ds' /\ length pre = rs_retries _ _ s /\
+               forall c, In c pre -> In (ms c) (rs_excl _ _ s)).
+Proof.
+  intros Hrc Hg. destruct (rs_p2e _ _ s) as [|c r] eqn:Ep.
+  - split; [reflexivity|]. pose proof (rs_get_random s ds Ep Hrc) as G.
+    destruct (sample_random C M meqb ms (rs_retries C M s) (rs_size C M s) (rs_excl C M s) ds)
+      as [[[c | ] ds''] | x] eqn:Es; rewrite G in Hg; try discriminate.
+    injection Hg as _ <-. apply sample_random_none in Es. assumption.
+  - destruct (rs_get_initial s c r ds Ep) as (s'' & Hg' & _). rewrite Hg' in Hg. discriminate.
+Qed.
+
+Lemma exhausted_all (space e : list M) :
+  NoDup e -> incl e space -> excl_exhausted M (Some (length space)) e = true -> incl space e.
+Proof.
+  intros Hnd Hi He. simpl in He. apply Nat.leb_le in He.
+  apply NoDup_length_incl; assumption.
+Qed.
+
+
+(* ---------------- C06: grid search enumerates its grid exactly once ----- *)
+Notation gs_state := (gs_state C M).
+Notation gs_get_config := (gs_get_config C M meqb ms).
+Notation gs_run := (gs_run C M meqb ms).
+
+(* first element of [l] that is not excluded, and the rest of the list *)
+Fixpoint scanl (e : excl M) (l : list C) : option (C * list C) :=
+  match l with
+  | [] => None
+  | c :: r => if excl_contains e c then scanl e r else Some (c, r)
+  end.
+
+Definition gs_same (s s' : gs_state) : Prop :=
+  gs_p2e _ _ s' = gs_p2e _ _ s /\ gs_grid _ _ s' = gs_grid _ _ s /\ gs_init _ _ s' = gs_init _ _ s /\
+  gs_allow_dup _ _ s' = gs_allow_dup _ _ s /\ gs_shuffle _ _ s' = gs_shuffle _ _ s.
+
+Lemma skipn_cons_nth {A} (l : list A) : forall n c r,
+  skipn n l = c :: r -> nth_error l n = Some c /\ skipn (S n) l = r /\ (n < length l)%nat.
+Proof.
+  induction l as [|a l IH]; intros [|n] c r H; simpl in *; try discriminate.
+  - injection H as -> ->. repeat split; lia.
+  - destruct (IH _ _ _ H) as (A1 & A2 & A3). repeat split; auto; lia.
+Qed.
+
+Lemma skipn_nil_ge {A} (l : list A) : forall n, skipn n l = [] -> (length l <= n)%nat.
+Proof.
+  induction l as [|a l IH]; intros [|n] H; simpl in *; try lia; try discriminate.
+  apply IH in H. lia.
+Qed.
+
+Lemma next_cand_spec l : forall fuel (s : gs_state),
+  gs_allow_dup _ _ s = false -> skipn (gs_next _ _ s) (gs_grid _ _ s) = l -> (length l < fuel)%nat ->
+  exists s', gs_next_candidate C M meqb ms fuel s = (s', option_map fst (scanl (gs_init _ _ s) l)) /\
+             gs_same s s' /\
+             skipn (gs_next _ _ s') (gs_grid _ _ s') =
+             match scanl (gs_init _ _ s) l with Some (_, r) => r | None => [] end.
+Proof.
+  induction l as [|c r IH]; intros fuel s Had Hs Hf.
+  - destruct fuel; [simpl in Hf; lia|]. simpl.
+    pose proof (skipn_nil_ge _ _ Hs) as Hge.
+    destruct (Nat.ltb (gs_next C M s) (length (gs_grid C M s))) eqn:El; [apply Nat.ltb_lt in El; lia|].
+    exists s. repeat split; auto.
+  - destruct fuel; [simpl in Hf; lia|]. simpl in Hf.
+    destruct (skipn_cons_nth _ _ _ _ Hs) as (Hn & Hs' & Hlt).
+    simpl gs_next_candidate. rewrite (proj2 (Nat.ltb_lt _ _) Hlt), Hn, Had. simpl andb. cbv iota.
+    simpl scanl. destruct (excl_contains (gs_init C M s) c) eqn:E.
+    + destruct (IH fuel (gs_with C M s (gs_p2e C M s) (S (gs_next C M s)) (gs_init C M s)))
+        as (s' & H1 & H2 & H3); simpl; auto; try lia.
+      exists s'. simpl in H1, H3. rewrite H1. split; [reflexivity|]. split; [|assumption].
+      destruct H2 as (A1 & A2 & A3 & A4 & A5). simpl in *. repeat split; assumption.
+    + eexists. split; [reflexivity|]. simpl. split; [repeat split; reflexivity | assumption].
+Qed.
+
+Definition is_get (e : gs_event) : bool := match e with GGet => true | GOther => false end.
+Definition count_gets (es : list gs_event) : nat := length (filter is_get es).
+
+Lemma firstn_repeat {A} (a : A) : forall k m, (k <= m)%nat -> firstn k (repeat a m) = repeat a k.
+Proof.
+  induction k as [|k IH]; intros [|m] H; simpl; try reflexivity; try lia.
+  rewrite IH; [reflexivity | lia].
+Qed.
+
+Lemma firstn_app_repeat {A} (a : A) (X : list A) : forall k m1 m2, (k <= m1)%nat -> (k <= m2)%nat ->
+  firstn k (X ++ repeat a m1) = firstn k (X ++ repeat a m2).
+Proof.
+  induction X as [|x X IH]; intros k m1 m2 H1 H2; simpl.
+  - rewrite !firstn_repeat; auto.
+  - destruct k; [reflexivity|]. simpl. f_equal. apply IH; lia.
+Qed.
+
+Definition grid_ok (e : excl M) (g : C) : bool := negb (excl_contains e g).
+
+Lemma scanl_filter e l :
+  filter (grid_ok e) l = match scanl e l with Some (c, r) => c :: filter (grid_ok e) r | None => [] end.
+Proof.
+  induction l as [|c r IH]; simpl; [reflexivity|]. unfold grid_ok at 1.
+  destruct (excl_contains e c); simpl; [assumption | reflexivity].
+Qed.
+
+Lemma gs_outputs es : forall (s : gs_state) l,
+  gs_allow_dup _ _ s = false -> skipn (gs_next _ _ s) (gs_grid _ _ s) = l ->
+  snd (gs_run s es) =
+  firstn (count_gets es)
+    (map Some (gs_p2e _ _ s ++ filter (grid_ok (fold_left excl_add (gs_p2e _ _ s) (gs_init _ _ s))) l)
+     ++ repeat None (count_gets es)).
+Proof.
+  induction es as [|e es IH]; intros s l Had Hs; [reflexivity|].
+  destruct e; simpl gs_run.
+  - (* GGet *)
+    unfold count_gets. simpl filter. simpl length. fold (count_gets es).
+    unfold gs_step. unfold Searcher.gs_get_config.
+    destruct (gs_p2e C M s) as [|c p] eqn:Ep.
+    + destruct (next_cand_spec l (S (S (length (gs_grid C M s)))) s Had Hs) as (s' & H1 & H2 & H3).
+      { rewrite <- Hs. rewrite skipn_length. lia. }
+      rewrite H1. destruct H2 as (A1 & A2 & A3 & A4 & A5).
+      specialize (IH s' _ (eq_trans A4 Had) H3).
+      destruct (gs_run s' es) as [s2 o2]. simpl in IH. simpl snd. rewrite IH.
+      rewrite A1, Ep, A3. simpl fold_left. simpl app at 1 3.
+      rewrite (scanl_filter (gs_init C M s) l).
+      destruct (scanl (gs_init C M s) l) as [[c r]|]; simpl.
+      * f_equal. change (None :: repeat None (count_gets es)) with (repeat (@None C) (S (count_gets es))).
+        apply firstn_app_repeat; lia.
+      * reflexivity.
+    + specialize (IH (gs_with C M s p (gs_next C M s) (excl_add (gs_init C M s) c)) l Had Hs).
+      destruct (gs_run (gs_with C M s p (gs_next C M s) (excl_add (gs_init C M s) c)) es) as [s2 o2].
+      simpl in IH. simpl snd. rewrite IH. simpl. f_equal.
+      change (None :: repeat None (count_gets es)) with (repeat (@None C) (S (count_gets es))).
+      apply firstn_app_repeat; lia.
+  - (* GOther *)
+    unfold count_gets. simpl filter. fold (count_gets es).
+    specialize (IH s l Had Hs). simpl gs_step. destruct (gs_run s es) as [s2 o2]. simpl in *. assumption.
+Qed.
+
+Lemma grid_ok_fold pts g :
+  grid_ok (fold_left excl_add pts []) g = true <-> ~ In (ms g) (map ms pts).
+Proof.
+  unfold grid_ok. rewrite negb_true_iff, contains_notIn, fold_add_In. simpl. tauto.
+Qed.
+
+Lemma grid_sequence_NoDup pts grid :
+  NoDup pts -> NoDup grid ->
+  NoDup (pts ++ filter (grid_ok (fold_left excl_add pts [])) grid).
+Proof.
+  intros Hp Hg. induction pts as [|x pts IH] using rev_ind.
+  - simpl. apply NoDup_filter. assumption.
+  - set (F := filter (grid_ok (fold_left excl_add (pts ++ [x]) [])) grid).
+    assert (HF : NoDup F) by (apply NoDup_filter; assumption).
+    assert (Hd : forall y, In y (pts ++ [x]) -> ~ In y F).
+    { intros y Hy Hf. apply filter_In in Hf as [_ Hf]. apply grid_ok_fold in Hf.
+      apply Hf. apply in_map. assumption. }
+    clear IH. revert Hp Hd. generalize (pts ++ [x]) as P. intros P. induction P as [|y P IHP]; intros Hp Hd.
+    + assumption.
+    + simpl. inversion Hp as [|? ? Hy HP]; subst. constructor.
+      * intro Hin. apply in_app_or in Hin as [Hin|Hin]; [contradiction|]. apply (Hd y); [left; reflexivity|assumption].
+      * apply IHP; [assumption|]. intros z Hz. apply Hd. right; assumption.
+Qed.
+
+
+Lemma rs_ctor_grid_initial_first es : forall (s : gs_state),
+  firstn (length (gs_p2e _ _ s)) (snd (gs_run s es)) =
+  map Some (firstn (length (snd (gs_run s es))) (gs_p2e _ _ s)).
+Proof.
+  induction es as [|e r IH]; intros s; simpl.
+  - rewrite firstn_nil. reflexivity.
+  - destruct e; simpl.
+    + unfold Searcher.gs_get_config. destruct (gs_p2e C M s) as [|c p] eqn:Ep.
+      * destruct (gs_next_candidate C M meqb ms (S (S (length (gs_grid C M s)))) s) as [s1 o].
+        destruct (gs_run s1 r). simpl. reflexivity.
+      * specialize (IH (gs_with C M s p (gs_next C M s) (excl_add (gs_init C M s) c))).
+        destruct (gs_run (gs_with C M s p (gs_next C M s) (excl_add (gs_init C M s) c)) r) as [s2 o2].
+        simpl in *. rewrite IH. reflexivity.
+    + specialize (IH s). destruct (gs_run s r). simpl in *. assumption.
+Qed.
+
+(* ---------------- C06: Bayesian optimisation never returns an excluded configuration *)
+Lemma bo_select_not_excluded e opt cands : forall considered c,
+  bo_select C M meqb ms e considered cands opt = Some c -> ~ In (ms c) e.
+Proof.
+  induction cands as [|x r IH]; intros considered c H; simpl in H; [discriminate|].
+  destruct (memb meqb (ms x) considered); [eapply IH; eauto|].
+  destruct (excl_contains e (opt x)) eqn:Eo.
+  - destruct (excl_contains e x) eqn:Ex; [eapply IH; eauto|].
+    injection H as <-. apply contains_notIn. assumption.
+  - injection H as <-. apply contains_notIn. assumption.
+Qed.
+
+Lemma mb_random_loop_not_excluded e n : forall (r r' : rs_state) ds c ds',
+  mb_random_loop C M meqb ms n r e ds = Ok (r', Some c, ds') -> ~ In (ms c) e.
+Proof.
+  induction n as [|n IH]; intros r r' ds c ds' H; simpl in H; [discriminate|].
+  destruct (rs_get_config r ds) as [[[r1 [c1|]] ds1]|x]; try discriminate.
+  destruct (excl_contains e c1) eqn:E; [eapply IH; eauto|].
+  injection H as _ <- _. apply contains_notIn. assumption.
+Qed.
+
+Lemma configs_of_In cfg ts c :
+  In c (configs_of C cfg ts) <-> exists t, In t ts /\ lookupZ t cfg = Some c.
+Proof.
+  unfold configs_of. rewrite in_flat_map. split.
+  - intros (t & Ht & Hc). exists t. split; [assumption|]. destruct (lookupZ t cfg); [|destruct Hc].
+    destruct Hc as [->|[]]. reflexivity.
+  - intros (t & Ht & Hc). exists t. split; [assumption|]. rewrite Hc. left; reflexivity.
+Qed.
+
+Lemma tj_excl_In (tj : tj_state C) b m :
+  In m (tj_excl C M meqb ms tj b) <->
+  exists t c, In t (tj_pending _ tj ++ tj_failed _ tj ++ (if b then [] else tj_obs _ tj)) /\
+              lookupZ t (tj_cfg _ tj) = Some c /\ m = ms c.
+Proof.
+  unfold tj_excl, excl_of_configs. rewrite fold_add_In. simpl. rewrite in_map_iff. split.
+  - intros [[]|(c & <- & Hc)]. apply configs_of_In in Hc as (t & Ht & Hl). eauto.
+  - intros (t & c & Ht & Hl & ->). right. exists c. split; [reflexivity|]. apply configs_of_In. eauto.
+Qed.
+
+Lemma tj_excl_mono (tj : tj_state C) m :
+  In m (tj_excl C M meqb ms tj true) -> In m (tj_excl C M meqb ms tj false).
+Proof.
+  rewrite !tj_excl_In. intros (t & c & Ht & Hl & ->). exists t, c. repeat split; auto.
+  rewrite app_nil_r in Ht. apply in_app_or in Ht as [Ht|Ht]; apply in_or_app; auto.
+  right. apply in_or_app; auto.
+Qed.
+
+(* a configuration suggested after the initial points is never one of a pending or
+   failed trial, and (unless duplicates are allowed) never one already observed *)
+Lemma mb_suggestion_not_excluded (s s' : mb_state C M) ds cands opt c ds' :
+  mb_p2e _ _ s = [] ->
+  mb_get_config C M meqb ms s ds cands opt = Ok (s', Some c, ds') ->
+  ~ In (ms c) (tj_excl C M meqb ms (mb_tj _ _ s) true) /\
+  (mb_allow_dup _ _ s = false -> ~ In (ms c) (tj_excl C M meqb ms (mb_tj _ _ s) false)).
+Proof.
+  intros Hp H. unfold mb_get_config in H. rewrite Hp in H.
+  destruct (mb_pick_random C M s (tj_excl C M meqb ms (mb_tj C M s) false)).
+  - destruct (mb_random_loop C M meqb ms (mb_outer C M s)
+                (match mb_rs C M s with Some r => r | None => mb_fresh_rs C M s end)
+                (tj_excl C M meqb ms (mb_tj C M s) false) ds) as [[[r' c'] ds'']|x] eqn:El; [|discriminate].
+    injection H as _ -> _. apply mb_random_loop_not_excluded in El.
+    split; [|auto]. intro Hin. apply El. apply tj_excl_mono. assumption.
+  - destruct (mb_allow_dup C M s) eqn:Ea; simpl in H.
+    + injection H as _ H _. apply bo_select_not_excluded in H. split; [assumption | discriminate].
+    + destruct (excl_exhausted M (mb_size C M s) (tj_excl C M meqb ms (mb_tj C M s) false)); simpl in H;
+        [discriminate|].
+      injection H as _ H _. apply bo_select_not_excluded in H.
+      split; [|auto]. intro Hin. apply H. apply tj_excl_mono. assumption.
+Qed.
+
+(* ---------------- C16: get_state / clone_from_state -------------------- *)
+Definition rs_wf (s : rs_state) : Prop :=
+  (rs_restrict _ _ s = None -> rs_rcpos _ _ s = None) /\
+  (rs_allow_dup _ _ s = false -> rs_cft _ _ s = None).
+
+Lemma rs_wf_step s e : rs_restrict _ _ s = None -> rs_wf s ->
+  rs_wf (fst (rs_step s e)) /\ rs_restrict _ _ (fst (rs_step s e)) = None /\
+  rs_debug _ _ (fst (rs_step s e)) = rs_debug _ _ s /\
+  rs_allow_dup _ _ (fst (rs_step s e)) = rs_allow_dup _ _ s.
+Proof.
+  intros Hrc [W1 W2]. destruct e as [ds|t c|t|t]; simpl.
+  - destruct (rs_p2e _ _ s) as [|c r] eqn:Ep.
+    + pose proof (rs_get_random s ds Ep Hrc) as G.
+      destruct (sample_random C M meqb ms (rs_retries C M s) (rs_size C M s) (rs_excl C M s) ds)
+        as [[c ds']|x]; rewrite G; simpl; unfold rs_wf; auto.
+    + destruct (rs_get_initial s c r ds Ep) as (s' & Hg & _ & Had & Hdb & _ & _ & Hcft & Hrc' & _).
+      rewrite Hg. simpl. destruct (Hrc' Hrc) as [R1 R2]. unfold rs_wf.
+      rewrite R1, R2, Hcft, Had, Hdb. auto.
+  - unfold rs_register_pending. destruct (rs_cft _ _ s) as [d|] eqn:Ec;
+      [destruct (rs_allow_dup _ _ s) eqn:Ea; [destruct (lookupZ t d)|]|];
+      unfold rs_wf; simpl; repeat split; intros; auto; try congruence;
+      try (exfalso; specialize (W2 eq_refl); discriminate).
+  - unfold rs_evaluation_failed. destruct (rs_cft _ _ s) as [d|] eqn:Ec;
+      [destruct (rs_allow_dup _ _ s) eqn:Ea; [destruct (lookupZ t d)|]|];
+      unfold rs_wf; simpl; repeat split; intros; auto; try congruence;
+      try (exfalso; specialize (W2 eq_refl); discriminate).
+  - unfold rs_wf; auto.
+Qed.
+
+Lemma rs_wf_run es : forall s, rs_restrict _ _ s = None -> rs_wf s ->
+  rs_wf (fst (rs_run s es)) /\ rs_restrict _ _ (fst (rs_run s es)) = None /\
+  rs_debug _ _ (fst (rs_run s es)) = rs_debug _ _ s.
+Proof.
+  induction es as [|e r IH]; intros s Hrc W; simpl; [auto|].
+  destruct (rs_wf_step s e Hrc W) as (W1 & R1 & D1 & _).
+  destruct (rs_step s e) as [s1 o1]. simpl in *.
+  destruct (IH s1 R1 W1) as (W2 & R2 & D2). destruct (rs_run s1 r) as [s2 o2]. simpl in *.
+  repeat split; try apply W2; congruence.
+Qed.
+
+(* the clone IS the original state: the state relation of the bisimulation is equality *)
+Lemma rs_clone_identity (s : rs_state) :
+  rs_debug _ _ s = true -> rs_restrict _ _ s = None -> rs_wf s ->
+  rs_clone C M meqb ms s (rs_get_state C M s) = Ok s.
+Proof.
+  intros Hd Hr [W1 W2]. unfold rs_clone, rs_ctor. rewrite Hd. simpl.
+  destruct s as [p2e ex cft rc pos dbg ad sz rt]. simpl in *. subst.
+  rewrite (W1 eq_refl). unfold rs_with. simpl. destruct ad; simpl; [reflexivity|].
+  rewrite (W2 eq_refl). reflexivity.
+Qed.
+
+Lemma rs_clone_nodebug (s : rs_state) st :
+  rs_debug _ _ s = false -> rs_clone C M meqb ms s st = Err AssertDebugLog.
+Proof. intro H. unfold rs_clone, rs_ctor. rewrite H. reflexivity. Qed.
+
+Definition gs_static (s s' : gs_state) : Prop :=
+  gs_grid _ _ s' = gs_grid _ _ s /\ gs_allow_dup _ _ s' = gs_allow_dup _ _ s /\
+  gs_shuffle _ _ s' = gs_shuffle _ _ s.
+
+Lemma gs_next_candidate_static fuel : forall (s : gs_state),
+  gs_static s (fst (gs_next_candidate C M meqb ms fuel s)).
+Proof.
+  induction fuel as [|f IH]; intros s; [simpl; unfold gs_static; auto|].
+  cbn [gs_next_candidate].
+  destruct (Nat.ltb (gs_next C M s) (length (gs_grid C M s))); [|simpl; unfold gs_static; auto].
+  destruct (nth_error (gs_grid C M s) (gs_next C M s)) as [c|]; [|simpl; unfold gs_static; auto].
+  set (s1 := if gs_allow_dup C M s && Nat.eqb (S (gs_next C M s)) (length (gs_grid C M s))
+             then gs_with C M s (gs_p2e C M s) 0 []
+             else gs_with C M s (gs_p2e C M s) (S (gs_next C M s)) (gs_init C M s)).
+  assert (H1 : gs_static s s1).
+  { unfold s1. destruct (gs_allow_dup C M s && Nat.eqb (S (gs_next C M s)) (length (gs_grid C M s)));
+      unfold gs_static; simpl; auto. }
+  destruct (excl_contains (gs_init C M s) c); [|simpl; exact H1].
+  specialize (IH s1). destruct H1 as (A1 & A2 & A3), IH as (B1 & B2 & B3).
+  unfold gs_static. repeat split; congruence.
+Qed.
+
+Lemma gs_run_static es : forall (s : gs_state), gs_static s (fst (gs_run s es)).
+Proof.
+  induction es as [|e r IH]; intros s; simpl; [unfold gs_static; auto|].
+  assert (H1 : gs_static s (fst (gs_step C M meqb ms s e))).
+  { destruct e; simpl; [|unfold gs_static; auto]. unfold Searcher.gs_get_config.
+    destruct (gs_p2e C M s); [|simpl; unfold gs_static; auto].
+    pose proof (gs_next_candidate_static (S (S (length (gs_grid C M s)))) s) as H.
+    destruct (gs_next_candidate C M meqb ms (S (S (length (gs_grid C M s)))) s). exact H. }
+  destruct (gs_step C M meqb ms s e) as [s1 o1]. simpl in H1.
+  specialize (IH s1). destruct (gs_run s1 r) as [s2 o2]. simpl in *.
+  destruct H1 as (A1 & A2 & A3), IH as (B1 & B2 & B3). unfold gs_static. repeat split; congruence.
+Qed.
+
+Lemma gs_clone_identity {Seed} base (shuffle : Seed -> list C -> list C) dseed dpts (s : gs_state) :
+  gs_allow_dup _ _ s = false ->
+  gs_grid _ _ s = (if gs_shuffle _ _ s then shuffle dseed base else base) ->
+  gs_clone C M base shuffle dseed dpts s (gs_get_state C M s) = s.
+Proof.
+  intros Ha Hg. destruct s as [p2e grid nxt ini ad sh]. simpl in *. subst.
+  unfold gs_clone, gs_ctor, gs_with. simpl. reflexivity.
+Qed.
+
+(* GP searcher: the clone differs from the original only in the lazily created internal
+   random searcher *)
+Lemma mb_clone_bookkeeping (s : mb_state C M) :
+  mb_clone C M s (mb_get_state C M s) = mb_with C M s (mb_p2e _ _ s) (mb_tj _ _ s) None.
+Proof. reflexivity. Qed.
+
+
+(* ---------------- assembled statements (used by props/C06.v, C16.v) ---- *)
+Lemma rs_step_static s e : rs_restrict _ _ s = None ->
+  rs_size _ _ (fst (rs_step s e)) = rs_size _ _ s /\ rs_retries _ _ (fst (rs_step s e)) = rs_retries _ _ s.
+Proof.
+  intros Hrc. destruct e as [ds|t c|t|t]; simpl.
+  - destruct (rs_p2e _ _ s) as [|c r] eqn:Ep.
+    + pose proof (rs_get_random s ds Ep Hrc) as G.
+      destruct (sample_random C M meqb ms (rs_retries C M s) (rs_size C M s) (rs_excl C M s) ds)
+        as [[c ds']|x]; rewrite G; simpl; auto.
+    + destruct (rs_get_initial s c r ds Ep) as (s' & Hg & _ & _ & _ & Hs & Hr & _).
+      rewrite Hg. simpl. auto.
+  - unfold rs_register_pending. destruct (rs_cft _ _ s) as [d|]; [|auto].
+    destruct (rs_allow_dup _ _ s); [|auto]. destruct (lookupZ t d); simpl; auto.
+  - unfold rs_evaluation_failed. destruct (rs_cft _ _ s) as [d|]; [|auto].
+    destruct (rs_allow_dup _ _ s); [|auto]. destruct (lookupZ t d); simpl; auto.
+  - auto.
+Qed.
+
+Lemma rs_run_static es : forall s, rs_restrict _ _ s = None -> rs_wf s ->
+  rs_size _ _ (fst (rs_run s es)) = rs_size _ _ s /\ rs_retries _ _ (fst (rs_run s es)) = rs_retries _ _ s.
+Proof.
+  induction es as [|e r IH]; intros s Hrc W; simpl; [auto|].
+  destruct (rs_wf_step s e Hrc W) as (W1 & R1 & _).
+  destruct (rs_step_static s e Hrc) as [S1 S2].
+  destruct (rs_step s e) as [s1 o1]. simpl in *.
+  destruct (IH s1 R1 W1) as [T1 T2]. destruct (rs_run s1 r) as [s2 o2]. simpl in *. split; congruence.
+Qed.
+
+Lemma rs_ctor_wf pts dl ad sz rt s :
+  rs_ctor C M meqb ms pts dl ad None sz rt = Ok s -> rs_wf s.
+Proof.
+  intro H. apply rs_ctor_p2e in H as (_ & _ & _ & Hp & Ha & _ & _ & Hc).
+  split; intro; [assumption|]. rewrite Hc. destruct ad; [congruence | reflexivity].
+Qed.
+
+Lemma rs_no_repeat pts dl sz rt s es :
+  NoDup pts -> rs_ctor C M meqb ms pts dl false None sz rt = Ok s ->
+  NoDup (suggested (snd (rs_run s es))) /\ ms_fresh pts (suggested (snd (rs_run s es))).
+Proof.
+  intros Hnd Hc. pose proof (rs_inv_run pts es s [] (rs_inv_ctor pts dl sz rt s Hnd Hc)) as I.
+  simpl in I. destruct I. auto.
+Qed.
+
+Lemma rs_none_exhausted_or_retries (space : list M) pts dl rt s es ds s2 ds' :
+  NoDup space -> (forall c, In (ms c) space) -> NoDup pts ->
+  rs_ctor C M meqb ms pts dl false None (Some (length space)) rt = Ok s ->
+  rs_get_config (fst (rs_run s es)) ds = Ok (s2, None, ds') ->
+  let outs := suggested (snd (rs_run s es)) in
+  (forall m, In m space -> In m (map ms outs)) \/
+  (exists pre, ds = map DCfg pre ++ ds' /\ length pre = rt /\ forall c, In c pre -> In (ms c) (map ms outs)).
+Proof.
+  intros Hsp Hall Hnd Hc Hg outs.
+  pose proof (rs_inv_run pts es s [] (rs_inv_ctor pts dl _ rt s Hnd Hc)) as I. simpl in I.
+  pose proof (rs_ctor_wf _ _ _ _ _ _ Hc) as W.
+  pose proof (rs_ctor_p2e _ _ _ _ _ _ Hc) as (_ & _ & Hr & _ & _ & Hsz & Hrt & _).
+  destruct (rs_run_static es s Hr W) as [S1 S2].
+  destruct I as [_ Irc Iex Iex2 Ind _ _ _ _ _].
+  destruct (rs_none_reason _ _ _ _ Irc Hg) as [_ [He|(pre & E1 & E2 & E3)]].
+  - left. intros m Hm. apply Iex2. rewrite S1, Hsz in He.
+    apply (exhausted_all space _ Ind); [|assumption|assumption].
+    intros x Hx. apply Iex2 in Hx. apply in_map_iff in Hx as (c & <- & _). apply Hall.
+  - right. exists pre. repeat split; [assumption | congruence |]. intros c Hc'. apply Iex2. auto.
+Qed.
+
+Lemma gs_grid_once {Seed} base (shuffle : Seed -> list C -> list C) pts seed sh es :
+  let s := gs_ctor C M base shuffle pts seed sh false in
+  let grid := if sh then shuffle seed base else base in
+  let ok := grid_ok (fold_left excl_add pts []) in
+  snd (gs_run s es) =
+    firstn (count_gets es) (map Some (pts ++ filter ok grid) ++ repeat None (count_gets es)) /\
+  (forall g, In g (filter ok grid) <-> In g grid /\ ~ In (ms g) (map ms pts)) /\
+  (NoDup pts -> NoDup grid -> NoDup (pts ++ filter ok grid)).
+Proof.
+  intros s grid ok. split; [|split].
+  - apply (gs_outputs es s grid); reflexivity.
+  - intro g. unfold ok. rewrite filter_In, grid_ok_fold. tauto.
+  - apply grid_sequence_NoDup.
+Qed.
+
+Lemma rs_clone_bisimilar pts dl ad sz rt s hist cont :
+  rs_ctor C M meqb ms pts dl ad None sz rt = Ok s -> rs_debug _ _ s = true ->
+  let s1 := fst (rs_run s hist) in
+  exists s1', rs_clone C M meqb ms s1 (rs_get_state C M s1) = Ok s1' /\ s1' = s1 /\
+              snd (rs_run s1' cont) = snd (rs_run s1 cont).
+Proof.
+  intros Hc Hd s1. pose proof (rs_ctor_wf _ _ _ _ _ _ Hc) as W.
+  pose proof (rs_ctor_p2e _ _ _ _ _ _ Hc) as (_ & _ & Hr & _).
+  destruct (rs_wf_run hist s Hr W) as (W1 & R1 & D1).
+  exists s1. split; [|auto]. apply rs_clone_identity; [unfold s1; congruence | exact R1 | exact W1].
+Qed.
+
+Lemma gs_clone_bisimilar {Seed} base (shuffle : Seed -> list C -> list C) dseed dpts pts seed sh hist cont :
+  (sh = false \/ shuffle seed base = shuffle dseed base) ->
+  let s1 := fst (gs_run (gs_ctor C M base shuffle pts seed sh false) hist) in
+  gs_clone C M base shuffle dseed dpts s1 (gs_get_state C M s1) = s1 /\
+  snd (gs_run (gs_clone C M base shuffle dseed dpts s1 (gs_get_state C M s1)) cont) = snd (gs_run s1 cont).
+Proof.
+  intros Hs s1.
+  assert (E : gs_clone C M base shuffle dseed dpts s1 (gs_get_state C M s1) = s1).
+  { destruct (gs_run_static hist (gs_ctor C M base shuffle pts seed sh false)) as (A1 & A2 & A3).
+    fold s1 in A1, A2, A3. simpl in A1, A2, A3. apply gs_clone_identity; [assumption|].
+    rewrite A1, A3. destruct sh; [|reflexivity]. destruct Hs as [Hs|Hs]; [discriminate | assumption]. }
+  split; [assumption | rewrite E; reflexivity].
+Qed.
+
+
+(* GP searcher: original and clone agree on every get_config that does not consult the
+   internal random searcher (initial points, model-based decisions), and stay equal up to it *)
+Definition mb_eqv (s s' : mb_state C M) : Prop :=
+  exists r', s' = mb_with C M s (mb_p2e _ _ s) (mb_tj _ _ s) r'.
+
+Lemma mb_get_config_eqv (s s' : mb_state C M) ds cands opt :
+  mb_eqv s s' ->
+  (mb_p2e _ _ s <> [] \/ mb_pick_random C M s (tj_excl C M meqb ms (mb_tj _ _ s) false) = false) ->
+  exists s1 s1' c ds',
+    mb_get_config C M meqb ms s ds cands opt = Ok (s1, c, ds') /\
+    mb_get_config C M meqb ms s' ds cands opt = Ok (s1', c, ds') /\ mb_eqv s1 s1'.
+Proof.
+  intros [r' ->] H. unfold mb_get_config. simpl.
+  destruct (mb_p2e C M s) as [|c p] eqn:Ep.
+  - destruct H as [H|H]; [congruence|].
+    unfold mb_pick_random in *. simpl. rewrite H.
+    destruct (mb_allow_dup C M s || negb (excl_exhausted M (mb_size C M s) (tj_excl C M meqb ms (mb_tj C M s) false)));
+      do 4 eexists; (split; [reflexivity|split; [reflexivity|]]); eexists; unfold mb_with; simpl; reflexivity.
+  - do 4 eexists. split; [reflexivity|split; [reflexivity|]]. eexists; unfold mb_with; simpl; reflexivity.
+Qed.
+
+Lemma mb_clone_eqv (s : mb_state C M) : mb_eqv s (mb_clone C M s (mb_get_state C M s)).
+Proof. exists None. reflexivity. Qed.
+
+Lemma mb_clone_fresh (s : mb_state C M) : mb_rs _ _ s = None -> mb_clone C M s (mb_get_state C M s) = s.
+Proof. intro H. destruct s; simpl in *; subst; reflexivity. Qed.
+
 End Proofs.
+
+(* ---------------- C06: keys, constants, casting (scheduler layer) ------ *)
+Section PostprocessProofs.
+Variable K V D : Type.
+Variable keqb : K -> K -> bool.
+Variable cast : D -> V -> V.
+Hypothesis keqb_eq : forall a b, keqb a b = true <-> a = b.
+
+Notation lookupK := (lookupK K keqb).
+Notation cast_config_values := (cast_config_values K V D keqb cast).
+Notation postprocess_config := (postprocess_config K V D keqb cast).
+
+Lemma keqb_refl k : keqb k k = true.
+Proof. apply keqb_eq. reflexivity. Qed.
+
+Lemma keqb_neq a b : a <> b -> keqb a b = false.
+Proof. intro H. destruct (keqb a b) eqn:E; [apply keqb_eq in E; contradiction | reflexivity]. Qed.
+
+Lemma lookupK_notin {A} k (l : list (K * A)) : ~ In k (map fst l) -> lookupK k l = None.
+Proof.
+  induction l as [|[k' v] r IH]; simpl; intro H; [reflexivity|].
+  rewrite keqb_neq; [apply IH; tauto | intro E; apply H; auto].
+Qed.
+
+Lemma lookupK_In_NoDup {A} k (v : A) l : NoDup (map fst l) -> In (k, v) l -> lookupK k l = Some v.
+Proof.
+  induction l as [|[k' v'] r IH]; simpl; intros Hnd Hin; [destruct Hin|].
+  inversion Hnd as [|? ? Hk Hr]; subst. destruct Hin as [E|Hin].
+  - injection E as -> ->. rewrite keqb_refl. reflexivity.
+  - rewrite keqb_neq; [apply IH; assumption|]. intros ->. apply Hk. apply (in_map fst) in Hin. exact Hin.
+Qed.
+
+Definition cast_entry (e : entry V D) (v : V) : V := match e with EDom d => cast d v | EConst _ => v end.
+
+Lemma cast_keys cfg space k : In k (map fst (cast_config_values cfg space)) -> In k (map fst space).
+Proof.
+  induction space as [|[k' e] r IH]; simpl; [auto|]. unfold Searcher.cast_config_values in *. simpl.
+  destruct (lookupK k' cfg); simpl; intros H; [destruct H as [H|H]; auto | auto].
+Qed.
+
+Lemma lookupK_cast cfg space k e :
+  NoDup (map fst space) -> In (k, e) space ->
+  lookupK k (cast_config_values cfg space) = option_map (cast_entry e) (lookupK k cfg).
+Proof.
+  induction space as [|[k' e'] r IH]; simpl; intros Hnd Hin; [destruct Hin|].
+  inversion Hnd as [|? ? Hk Hr]; subst. unfold Searcher.cast_config_values. simpl.
+  fold (cast_config_values cfg r). destruct Hin as [E|Hin].
+  - injection E as -> ->. destruct (lookupK k cfg) as [v|]; simpl.
+    + rewrite keqb_refl. reflexivity.
+    + apply lookupK_notin. intro H. apply Hk. eapply cast_keys; eauto.
+  - assert (Hne : k <> k') by (intros ->; apply Hk; apply (in_map fst) in Hin; exact Hin).
+    destruct (lookupK k' cfg) as [v|]; simpl; [rewrite (keqb_neq _ _ Hne)|]; apply IH; assumption.
+Qed.
+
+Lemma postprocess_keys cfg space : map fst (postprocess_config cfg space) = map fst space.
+Proof. unfold Searcher.postprocess_config. rewrite map_map. reflexivity. Qed.
+
+Lemma postprocess_lookup cfg space k e :
+  NoDup (map fst space) -> In (k, e) space ->
+  lookupK k (postprocess_config cfg space) =
+  Some (match lookupK k cfg with
+        | Some v => OVal (cast_entry e v)
+        | None => match e with EDom d => ODomObj d | EConst v => OVal v end
+        end).
+Proof.
+  intros Hnd Hin.
+  erewrite (lookupK_In_NoDup k); [reflexivity | rewrite postprocess_keys; assumption |].
+  unfold Searcher.postprocess_config. apply in_map_iff. exists (k, e). split; [|assumption]. simpl.
+  fold (cast_config_values cfg space). rewrite (lookupK_cast cfg space k e Hnd Hin).
+  destruct (lookupK k cfg); reflexivity.
+Qed.
+End PostprocessProofs.
+
+(* ---------------- itertools.product ------------------------------------ *)
+Lemma cart_In {V} (ls : list (list V)) : forall x,
+  In x (cart ls) <-> Forall2 (fun v l => In v l) x ls.
+Proof.
+  induction ls as [|l r IH]; intros x; simpl.
+  - split; [intros [<-|[]]; constructor | intro H; inversion H; auto].
+  - rewrite in_flat_map. split.
+    + intros (v & Hv & Hx). apply in_map_iff in Hx as (y & <- & Hy). constructor; [assumption|]. apply IH, Hy.
+    + intro H. inversion H as [|v ? y ? Hv Hy]; subst. exists v. split; [assumption|].
+      apply in_map. apply IH. assumption.
+Qed.
+
+Lemma NoDup_app_disjoint {A} (l1 l2 : list A) :
+  NoDup l1 -> NoDup l2 -> (forall x, In x l1 -> ~ In x l2) -> NoDup (l1 ++ l2).
+Proof.
+  induction l1 as [|y l1 IH]; simpl; intros H1 H2 Hd; [assumption|].
+  inversion H1 as [|? ? Hy Hl]; subst. constructor.
+  - intro Hin. apply in_app_or in Hin as [Hin|Hin]; [contradiction|]. apply (Hd y); auto.
+  - apply IH; auto.
+Qed.
+
+Lemma cart_NoDup {V} (ls : list (list V)) : Forall (@NoDup V) ls -> NoDup (cart ls).
+Proof.
+  induction ls as [|l r IH]; intro H; simpl.
+  - constructor; [intros []|constructor].
+  - inversion H as [|? ? Hl Hr]; subst. specialize (IH Hr). clear H Hr.
+    induction l as [|v l IHl]; simpl; [constructor|].
+    inversion Hl as [|? ? Hv Hl']; subst.
+    apply NoDup_app_disjoint.
+    + apply FinFun.Injective_map_NoDup; [intros a b E; injection E; auto | assumption].
+    + apply IHl. assumption.
+    + intros x Hx Hy. apply in_map_iff in Hx as (y & <- & _).
+      apply in_flat_map in Hy as (v' & Hv' & Hy). apply in_map_iff in Hy as (z & E & _).
+      injection E as -> _. contradiction.
+Qed.
